@@ -65,9 +65,12 @@ class FS:
         t = (t // g) * g
         return int(round(t * 1e9))
 
-    def stamp(self, target, skew=0.0):
+    def stamp(self, target, skew=0.0, follow_symlinks=True):
         ns = self.stamp_ns(skew)
-        _real_utime(target, ns=(ns, ns))
+        if follow_symlinks:
+            _real_utime(target, ns=(ns, ns))
+        else:
+            _real_utime(target, ns=(ns, ns), follow_symlinks=False)
 
     def after_op(self):
         if self.tick_per_op:
@@ -97,6 +100,7 @@ class SimRaw(io.RawIOBase):
         super().__init__()
         self.fs, self.path, self.fd, self.relpath = fs, path, fd, relpath
         self._closed_fd = False
+        self.incarnation = getattr(fs, "incarnation", 0)  # the gwf process that owns this descriptor
 
     def writable(self):
         return True
@@ -112,6 +116,10 @@ class SimRaw(io.RawIOBase):
 
     def write(self, b):
         n = len(b)
+        if getattr(self.fs, "incarnation", 0) != self.incarnation:
+            # the process that opened this file has exited or was killed; whatever its Python object still
+            # buffers (flushed by the garbage collector at some later time) never reaches the disk
+            return n
         self.fs.seam("write", self.relpath, nbytes=n)  # may raise OSError / SimKill
         os.write(self.fd, bytes(b))
         self.fs.stamp(self.fd)
@@ -163,10 +171,10 @@ def _utime(path, times=None, *, ns=None, dir_fd=None, follow_symlinks=True):
         if ns is not None:
             return _real_utime(path, ns=ns, dir_fd=dir_fd, follow_symlinks=follow_symlinks)
         return _real_utime(path, times, dir_fd=dir_fd, follow_symlinks=follow_symlinks)
-    if not os.path.exists(path):
+    if not (os.path.exists(path) if follow_symlinks else os.path.lexists(path)):
         raise FileNotFoundError(errno.ENOENT, "No such file or directory", os.fspath(path))
     fs.seam("utime", fs.rel(path))
-    fs.stamp(path)
+    fs.stamp(path, follow_symlinks=follow_symlinks)
     fs.after_op()
 
 
